@@ -2,6 +2,7 @@ package mask
 
 import (
 	"regexp"
+	"slices"
 	"unicode/utf8"
 
 	"github.com/ozontech/file.d/cfg"
@@ -206,12 +207,30 @@ func (m *Mask) maskValue(value, buf []byte) ([]byte, bool) {
 	buf = buf[:0]
 
 	prevFinish := 0
-	curStart, curFinish := 0, 0
+	sections := make([][2]int, 0, len(m.Groups))
 	for _, index := range indexes {
+		// sections of the match to mask: the groups that took part in it
+		sections = sections[:0]
 		for _, grp := range m.Groups {
-			curStart = index[grp*2]
-			curFinish = index[grp*2+1]
-			if curStart < 0 || curFinish < 0 { // invalid idx check
+			curStart, curFinish := index[grp*2], index[grp*2+1]
+			if curStart < 0 || curFinish < 0 { // the group did not participate in the match
+				continue
+			}
+			sections = append(sections, [2]int{curStart, curFinish})
+		}
+
+		// groups may be listed in any order and may be nested:
+		// go from left to right, an enclosing group before the groups inside it
+		slices.SortFunc(sections, func(a, b [2]int) int {
+			if a[0] != b[0] {
+				return a[0] - b[0]
+			}
+			return b[1] - a[1]
+		})
+
+		for _, section := range sections {
+			curStart, curFinish := section[0], section[1]
+			if curStart < prevFinish { // lies inside a section that is already masked
 				continue
 			}
 
@@ -227,5 +246,5 @@ func (m *Mask) maskValue(value, buf []byte) ([]byte, bool) {
 		}
 	}
 
-	return append(buf, value[curFinish:]...), true
+	return append(buf, value[prevFinish:]...), true
 }
